@@ -142,10 +142,13 @@ def ev(a, env):
             if abs(args[0]) > 25:
                 raise IllConditioned("exp range")
             return _num(math.exp(args[0]))
+        if n in ("sin", "cos", "tan") and abs(args[0]) > 1e3:
+            # a large argument turns one ulp of difference in the argument (math.exp vs numpy.exp, summation order) into a visible difference
+            raise IllConditioned("trigonometric function of a large argument")
         if n in ("sin", "cos"):
             return _num(getattr(math, n)(args[0]))
         if n == "tan":
-            if abs(math.cos(args[0])) < 1e-3:
+            if abs(math.cos(args[0])) < 0.05:
                 raise IllConditioned("tan pole")
             return _num(math.tan(args[0]))
         if n == "arctan":
